@@ -334,9 +334,21 @@ func bodyDump(d *document.Document) *dnode {
 }
 
 func reopen(d *document.Document) (*document.Document, []byte, error) {
+	// saving reads the document: the body holds the same elements in the same order afterwards
+	sig := func() string {
+		var b strings.Builder
+		for _, e := range d.Body.Elements {
+			fmt.Fprintf(&b, "%T@%p ", e, e)
+		}
+		return b.String()
+	}
+	before := sig()
 	data, err := d.ToBytes()
 	if err != nil {
 		return nil, nil, err
+	}
+	if after := sig(); after != before {
+		return nil, nil, fmt.Errorf("saving changed the body of the document in memory: %s -> %s", before, after)
 	}
 	nd, err := document.OpenFromMemory(io.NopCloser(bytes.NewReader(data)))
 	return nd, data, err
